@@ -1,1 +1,44 @@
-From TL Require Import Base.Base.
+(* C18 - List operations need stack space independent of list length.        *)
+(* Statements only; the proofs are in Proofs/Depth.v and Proofs/TailCalls.v.   *)
+From TL Require Import Base.Base Model.Reader Model.Printer Model.Store Model.Eval Model.Init.
+From TL Require Import Proofs.Depth Proofs.EvalRel Proofs.TailCalls.
+Local Open Scope nat_scope.
+Local Open Scope list_scope.
+
+(* [actD v]: the nesting of activations that printing, comparing with equal   *)
+(* or copying the value v needs when the spine of a list is walked by a loop    *)
+(* and only the elements are entered recursively - the recursion structure of    *)
+(* the model's print / equal / spine copy.                                       *)
+(* It depends on the nesting of the ELEMENTS only, never on the length:          *)
+Theorem C18_depth_of_a_list : forall x xs,
+  actD (of_list (x :: xs) Nil) = list_max (map (fun e => S (actD e)) (x :: xs)).
+Proof. exact actD_list. Qed.
+Theorem C18_flat_list_one_activation : forall x xs,
+  forallb atom (x :: xs) = true -> actD (of_list (x :: xs) Nil) = 1.
+Proof. exact flat_list_depth_one. Qed.
+Theorem C18_append_does_not_deepen : forall xs ys,
+  spineD (of_list (xs ++ ys) Nil) = Nat.max (spineD (of_list xs Nil)) (spineD (of_list ys Nil)).
+Proof. exact append_depth. Qed.
+(* measuring is a count *)
+Theorem C18_length_is_a_count : forall xs, length_z (of_list xs Nil) = Z.of_nat (List.length xs).
+Proof. exact length_is_a_count. Qed.
+(* building a long list by a tail-recursive function: the trampoline is a    *)
+(* loop (one TTramp task per iteration), bindings stay balanced for any        *)
+(* number of iterations                                                         *)
+Theorem C18_tail_recursive_builder_is_a_loop : forall F f ps body vals s,
+  run F (S f) (TTramp ps body (Cons Bounce vals)) s =
+  bind (eval_function (run F f) false ps body vals) (fun r' => run F f (TTramp ps body r')) s.
+Proof. exact trampoline_iteration. Qed.
+
+Print Assumptions C18_depth_of_a_list. Print Assumptions C18_flat_list_one_activation.
+Print Assumptions C18_append_does_not_deepen. Print Assumptions C18_length_is_a_count.
+Print Assumptions C18_tail_recursive_builder_is_a_loop.
+
+(* non-vacuity: 3000 elements, depth 1; a nested element decides the depth *)
+Example C18_ex :
+  actD (of_list (repeat (Int 1) 3000) Nil) = 1 /\
+  actD (of_list (repeat (Int 1) 3000 ++ [of_list [of_list [Int 2] Nil] Nil]) Nil) = 3.
+Proof. vm_compute. split; reflexivity. Qed.
+
+Check C18_flat_list_one_activation : forall x xs,
+  forallb atom (x :: xs) = true -> actD (of_list (x :: xs) Nil) = 1.
